@@ -211,3 +211,26 @@ for role in ('initiator', 'target'):
                  havoc={'symm': Int(0, None), 'send_pdu': Opt(PDUANY), 'rcvd_pdu': OneOf(
                      None, PDUANY, Obj('nfc.llcp.pdu:Disconnect', _partial=False, ptype=5, dsap=0, ssap=0))})},
              native=False)
+
+# the assumed contract C09/llc.exchange above ("returns a PDU or None") checked on the real function: whatever
+# the MAC delivers or raises, and whatever PDU the upper layers queued - including one that can not be encoded
+# (SAP beyond 63, TLV value out of range: the socket layer does not validate them) - exchange() returns and the
+# run loop goes on to terminate(); an encode error that escaped would end the run loop without terminate()
+contract('nfc.llcp.pdu:decode', 'C09', dict(data=Any(), offset=Any(), size=Any()), name='C09/pdu.decode',
+         assumed=True, note='proved in C07/C11: returns a PDU or raises DecodeError',
+         raises={'nfc.llcp.pdu:DecodeError': []}, returns=PDUANY)
+contract(L + 'LogicalLinkController.exchange', 'C09',
+         dict(self=Obj(L + 'LogicalLinkController', _partial=False,
+                       mac=Obj('models.llc_models:MacModel', _partial=False, calls=0),
+                       pcnt=Obj(L + 'LogicalLinkController.Counter', _partial=False,
+                                sent=DictOf({}, default_factory=True), rcvd=DictOf({}, default_factory=True))),
+              send_pdu=OneOf(None,
+                             Obj('nfc.llcp.pdu:UnnumberedInformation', _partial=False, ptype=3, dsap=Int(-1, 300),
+                                 ssap=Int(-1, 300), data=Bytes(0, 300)),
+                             Obj('nfc.llcp.pdu:Connect', _partial=False, ptype=4, dsap=Int(-1, 300), ssap=Int(0, 63),
+                                 miu=Int(0, 70000), rw=Int(0, 300), sn=Opt(Bytes(0, 300))),
+                             Obj('nfc.llcp.pdu:Symmetry', _partial=False, ptype=0, dsap=0, ssap=0)),
+              timeout=Const(0.1)),
+         name='C09/llc.exchange.real', use=['C09/pdu.decode'],
+         ensures=[('O-exchange.result', 'result is None or isinstance(result, pdu.ProtocolDataUnit)')],
+         raises={})
